@@ -95,7 +95,7 @@ def closure(vfile):
       continue
     seen.append(f)
     txt = open(os.path.join(COQ, f)).read()
-    for m in re.finditer(r'From\s+MM\s+Require\s+(?:Import\s+|Export\s+)?((?:[A-Za-z_][\w.]*\s+)*[A-Za-z_][\w.]*)\s*\.(?=\s)', txt):
+    for m in re.finditer(r'From\s+MM\s+Require\s+(?:Import\s+|Export\s+)?((?:[A-Za-z_]\w*(?:\.[A-Za-z_]\w*)*\s+)*[A-Za-z_]\w*(?:\.[A-Za-z_]\w*)*)\s*\.(?=\s)', txt):
       for mod in m.group(1).split():
         todo.append(mod.replace('.', '/') + '.v')
   return sorted(seen)
